@@ -1,7 +1,5 @@
 // ---- abstract syntax.  Statement-level nodes are the real types of src/frontend/ast.rs; what the sub-parsers that are
 // not under contract produce (expressions, names, poetic literals, function definitions) is opaque.
-#[verifier::external_body] pub struct Expression { _p: u8 }
-#[verifier::external_body] pub struct ExpressionList { _p: u8 }
 #[verifier::external_body] pub struct AssignmentLHS { _p: u8 }
 #[verifier::external_body] pub struct AssignmentRHS { _p: u8 }
 #[verifier::external_body] pub struct ArrayPopExpr { _p: u8 }
@@ -24,6 +22,14 @@
 //@end
 //@item src/frontend/ast.rs | enum | RoundingDirection
 //@derive Clone, Copy
+//@end
+//@item src/frontend/ast.rs | struct | UnaryExpression
+//@end
+//@item src/frontend/ast.rs | struct | BinaryExpression
+//@end
+//@item src/frontend/ast.rs | enum | Expression
+//@end
+//@item src/frontend/ast.rs | struct | ExpressionList
 //@end
 //@item src/frontend/ast.rs | struct | Assignment
 //@end
@@ -66,7 +72,11 @@
 //@item src/frontend/ast.rs | struct | Program
 //@end
 /// which abstract sub-parser a history entry records, and what it returned
-pub enum K { Stmt, Expr, ExprList, Primary, Lhs, Blk, Ident, VarName, PoeticNum, WordStmt }
+/// the levels of the expression grammar, i.e. the parser functions that the binary-expression helpers receive as
+/// their `next` argument (defunctionalised: Level::X stands for Parser::parse_X)
+#[derive(Clone, Copy)]
+pub enum Level { Expression, Comparison, Term, Factor, Unary }
+pub enum K { Stmt, Expr, ExprList, Primary, Lhs, Blk, Ident, VarName, PoeticNum, WordStmt, Level(Level), ListOf(Level) }
 pub enum Out {
     Stmt(Option<Statement>), Expr(Expression), ExprList(ExpressionList), Primary(PrimaryExpression), Lhs(AssignmentLHS), Blk(Block),
     Ident(Option<WithRange<Identifier>>), VarName(Option<WithRange<VariableName>>), PoeticNum(PoeticNumberLiteral), WordStmt(Statement),
